@@ -443,3 +443,76 @@ Example ex_multipoints_run :
   multipoint_array ex_multipoints (4, 2, 4, 2) None = Some [true; false; false] /\
   multipoint_array ex_multipoints (3, 3, 1, 1) (Some [2; 2; 0]%nat) = Some [true; true; false].
 Proof. vm_compute. repeat split. Qed.
+
+(* ---- A-FLOAT (DESIGN 3.1) as a theorem: float64 evaluation = evaluation in Z ----
+   Model/FloatKernels.v transcribes the numba kernels over IEEE binary64 (Coq's
+   primitive floats; tied to the real kernels on arbitrary float64 inputs by
+   harness/cfloat_util.py).  On the images [Z2F z] of integers |z| <= 2^25 the float
+   kernels return exactly what the integer models used by every theorem above
+   return: every -, * and comparison is exact (Proofs/FloatExact.v, through Flocq's
+   Bminus_correct / Bmult_correct and the standard library's FloatAxioms). *)
+From SP Require Model.FloatKernels Proofs.FloatExact.
+
+(* the injection is what it says: a finite binary64 whose real value is z *)
+Theorem C01_Z2F_is_the_integer : forall z : Z, (Z.abs z <= 2 ^ 53)%Z ->
+  Flocq.IEEE754.BinarySingleNaN.is_finite (Flocq.IEEE754.PrimFloat.Prim2B (FloatKernels.Z2F z)) = true /\
+  Flocq.IEEE754.BinarySingleNaN.B2R (Flocq.IEEE754.PrimFloat.Prim2B (FloatKernels.Z2F z)) = IZR z.
+Proof. exact FloatExact.Z2F_Fint. Qed.
+Print Assumptions C01_Z2F_is_the_integer.
+
+Theorem C01_triangle_orientation_float_exact : forall ax ay bx by_ cx cy : Z,
+  (Z.abs ax <= 2 ^ 25)%Z -> (Z.abs ay <= 2 ^ 25)%Z -> (Z.abs bx <= 2 ^ 25)%Z ->
+  (Z.abs by_ <= 2 ^ 25)%Z -> (Z.abs cx <= 2 ^ 25)%Z -> (Z.abs cy <= 2 ^ 25)%Z ->
+  FloatKernels.ftriangle_orientation
+    (FloatKernels.Z2F ax) (FloatKernels.Z2F ay) (FloatKernels.Z2F bx)
+    (FloatKernels.Z2F by_) (FloatKernels.Z2F cx) (FloatKernels.Z2F cy) =
+  triangle_orientation ax ay bx by_ cx cy.
+Proof. exact FloatExact.triangle_orientation_float_exact. Qed.
+Print Assumptions C01_triangle_orientation_float_exact.
+
+Theorem C01_segments_intersect_1d_float_exact : forall ax0 ax1 bx0 bx1 : Z,
+  (Z.abs ax0 <= 2 ^ 25)%Z -> (Z.abs ax1 <= 2 ^ 25)%Z ->
+  (Z.abs bx0 <= 2 ^ 25)%Z -> (Z.abs bx1 <= 2 ^ 25)%Z ->
+  FloatKernels.fsegments_intersect_1d
+    (FloatKernels.Z2F ax0) (FloatKernels.Z2F ax1) (FloatKernels.Z2F bx0) (FloatKernels.Z2F bx1) =
+  segments_intersect_1d ax0 ax1 bx0 bx1.
+Proof. exact FloatExact.segments_intersect_1d_float_exact. Qed.
+Print Assumptions C01_segments_intersect_1d_float_exact.
+
+Theorem C01_segments_intersect_float_exact : forall ax0 ay0 ax1 ay1 bx0 by0 bx1 by1 : Z,
+  (Z.abs ax0 <= 2 ^ 25)%Z -> (Z.abs ay0 <= 2 ^ 25)%Z ->
+  (Z.abs ax1 <= 2 ^ 25)%Z -> (Z.abs ay1 <= 2 ^ 25)%Z ->
+  (Z.abs bx0 <= 2 ^ 25)%Z -> (Z.abs by0 <= 2 ^ 25)%Z ->
+  (Z.abs bx1 <= 2 ^ 25)%Z -> (Z.abs by1 <= 2 ^ 25)%Z ->
+  FloatKernels.fsegments_intersect
+    (FloatKernels.Z2F ax0) (FloatKernels.Z2F ay0) (FloatKernels.Z2F ax1) (FloatKernels.Z2F ay1)
+    (FloatKernels.Z2F bx0) (FloatKernels.Z2F by0) (FloatKernels.Z2F bx1) (FloatKernels.Z2F by1) =
+  segments_intersect ax0 ay0 ax1 ay1 bx0 by0 bx1 by1.
+Proof. exact FloatExact.segments_intersect_float_exact. Qed.
+Print Assumptions C01_segments_intersect_float_exact.
+
+(* the same for ANY finite floats whose values are those integers (e.g. -0.0 for 0):
+   [FloatExact.FintS f z] := f is finite, its real value is IZR z, and |z| <= 2^25 *)
+Theorem C01_segments_intersect_float_exact_rel :
+  forall ax0 ay0 ax1 ay1 bx0 by0 bx1 by1 zax0 zay0 zax1 zay1 zbx0 zby0 zbx1 zby1,
+  FloatExact.FintS ax0 zax0 -> FloatExact.FintS ay0 zay0 ->
+  FloatExact.FintS ax1 zax1 -> FloatExact.FintS ay1 zay1 ->
+  FloatExact.FintS bx0 zbx0 -> FloatExact.FintS by0 zby0 ->
+  FloatExact.FintS bx1 zbx1 -> FloatExact.FintS by1 zby1 ->
+  FloatKernels.fsegments_intersect ax0 ay0 ax1 ay1 bx0 by0 bx1 by1 =
+  segments_intersect zax0 zay0 zax1 zay1 zbx0 zby0 zbx1 zby1.
+Proof. exact FloatExact.segments_intersect_float_exact_rel. Qed.
+Print Assumptions C01_segments_intersect_float_exact_rel.
+
+(* non-vacuity: the float kernel run by the Coq kernel on a touching pair, a crossing
+   pair and a near miss at the edge of the exact range *)
+Example ex_float_segments :
+  FloatKernels.fsegments_intersect (FloatKernels.Z2F 0) (FloatKernels.Z2F 0)
+     (FloatKernels.Z2F 33554432) (FloatKernels.Z2F 33554432)
+     (FloatKernels.Z2F (-33554432)) (FloatKernels.Z2F 33554432)
+     (FloatKernels.Z2F 33554431) (FloatKernels.Z2F 33554431) = true /\
+  FloatKernels.fsegments_intersect (FloatKernels.Z2F 0) (FloatKernels.Z2F 0)
+     (FloatKernels.Z2F 33554432) (FloatKernels.Z2F 33554432)
+     (FloatKernels.Z2F (-33554432)) (FloatKernels.Z2F 33554432)
+     (FloatKernels.Z2F 33554431) (FloatKernels.Z2F 33554432) = false.
+Proof. vm_compute. split; reflexivity. Qed.
